@@ -233,7 +233,7 @@ func checkValue(s *vals.Spec, via string) (ok bool, class, shape, detail string)
 
 // ---- universes -------------------------------------------------------------------
 
-var idAlpha = []string{"a", "/", `"`, "@", "[", "]", `\`, "^", ":", "é"}
+var idAlpha = []string{"a", "/", `"`, "@", "[", "]", `\`, "^", ":", "é", "%"}
 
 func anchors(thorough bool) []time.Time {
 	walls := [][6]int{{2006, 1, 2, 15, 4, 5}, {1, 1, 1, 0, 0, 0}, {1677, 9, 21, 0, 12, 43}, {1970, 1, 1, 0, 0, 0},
@@ -283,7 +283,7 @@ func textValues(thorough bool) []string {
 	out := vals.StringsUpTo(alpha, 0, max)
 	out = append(out, `"^^type:`, `a"^^type:`, `"^^type:text`, `"^^type:bool`, `x"^^type:int64`, `"^^type:"^^type:`,
 		`"@[`, `"@[]`, `^^type:`, `^^type:text`, `"^^`, "some random string", "true", "0", "[]", "[1 2]", "/t<a>", `"p"@[]`,
-		" leading", "trailing ", "tab\tinside", "two\nlines", "\n", "ends with quote\"", "日本語", " nbsp ")
+		"100%s", "%d%%", "%!v(", " leading", "trailing ", "tab\tinside", "two\nlines", "\n", "ends with quote\"", "日本語", " nbsp ")
 	return out
 }
 
@@ -774,6 +774,21 @@ func levelGraphs(r *common.Run) {
 			graphs = append(graphs, g)
 		}
 	}
+	// every value of the text universe, and every node / predicate id up to length 2, written and read as a
+	// graph of one triple (the writer and the reader see every letter of the alphabets, not only the 18 triples)
+	nSingles := len(graphs)
+	a0 := vals.NodeSpec("/t", "a")
+	for _, tv := range textValues(r.Thorough()) {
+		graphs = append(graphs, []*vals.Spec{vals.TripleSpec(a0, vals.ImmSpec("p"), vals.ObjSpec(vals.TextSpec(tv)))})
+	}
+	for _, id := range vals.StringsUpTo(append(append([]string{}, idAlpha...), "<", ">"), 1, r.Pick(2, 3)) {
+		graphs = append(graphs, []*vals.Spec{vals.TripleSpec(a0, vals.ImmSpec(id), vals.ObjSpec(vals.TempSpec(id, model.T1)))})
+		if !strings.ContainsAny(id, "<>") {
+			graphs = append(graphs, []*vals.Spec{vals.TripleSpec(vals.NodeSpec("/t", id), vals.ImmSpec("p"), vals.ObjSpec(vals.NodeSpec("/t/u", id)))})
+		}
+	}
+	nSingles = len(graphs) - nSingles
+	r.Set("graphs_of_one_triple_per_value", nSingles)
 	var mu sync.Mutex
 	done, multi := 0, 0
 	common.ParallelFor(len(graphs), func(i int) {
@@ -794,7 +809,7 @@ func levelGraphs(r *common.Run) {
 	r.Set("graph_universe", len(u))
 	r.Set("graph_max_size", size)
 	r.Set("graphs_clean_subsets", nClean)
-	r.Set("graphs_with_one_special_triple", len(graphs)-nClean)
+	r.Set("graphs_with_one_special_triple", len(graphs)-nClean-nSingles)
 	r.Add("evaluations", done)
 	r.Add("states", done)
 	r.Add("distinct_nontrivial", multi)
